@@ -13,7 +13,7 @@ const char *mop_names[MOP_N] = {
     "glyphs",
     "r_init_rects", "r_binop", "r_rectop", "r_copy", "r_inverse", "r_conv", "r_fini",
     "filter_create", "compute_region",
-    "scribble",
+    "scribble", "alias",
 };
 
 const pixman_format_code_t sim_formats[] = {
@@ -248,6 +248,16 @@ slot_release_storage (mslot_t *s)
     s->buf = NULL;
 }
 
+/* a slot is being reused: its old storage may still be seen through an alias image */
+static void
+slot_retire_storage (machine_t *m, mslot_t *s)
+{
+    if (!s->buf) return;
+    if (m->n_retired < 64) m->retired[m->n_retired++] = s->buf;
+    else arena_free (s->buf);
+    s->buf = NULL;
+}
+
 static void
 slot_clear (mslot_t *s)
 {
@@ -321,6 +331,7 @@ machine_free (machine_t *m)
     }
     sim_alloc_leave ();
     for (i = 0; i < M_NIMG; i++) slot_release_storage (&m->img[i]);
+    for (i = 0; i < m->n_retired; i++) arena_free (m->retired[i]);
     machine_current = prev;
     free (m);
 }
@@ -511,6 +522,14 @@ make_nonbits_image (int kind, const int64_t *a, int n)
     return NULL;
 }
 
+/* pixman_bool_t is an int: "true" is any non-zero value, not just 1 */
+static pixman_bool_t
+truthy (int64_t v)
+{
+    static const pixman_bool_t vals[4] = { 0, 1, 2, -1 };
+    return vals[sim_mod (v, 4)];
+}
+
 /* Apply one property op to an image.  alpha_img is the image to attach for
  * P_ALPHA_MAP (NULL to detach).  Returns the API's status (1 for void). */
 static int
@@ -593,16 +612,16 @@ apply_prop (pixman_image_t *img, pixman_format_code_t fmt, int is_bits, int mop,
 	return ok;
     }
     case MOP_SET_CLIENT_CLIP:
-	pixman_image_set_has_client_clip (img, (pixman_bool_t)sim_mod (A (1), 2));
+	pixman_image_set_has_client_clip (img, truthy (A (1)));
 	return 1;
     case MOP_SET_SOURCE_CLIPPING:
-	pixman_image_set_source_clipping (img, (pixman_bool_t)sim_mod (A (1), 2));
+	pixman_image_set_source_clipping (img, truthy (A (1)));
 	return 1;
     case MOP_SET_ALPHA_MAP:
 	pixman_image_set_alpha_map (img, alpha_img, (int16_t)sim_clamp (A (2), -300, 300), (int16_t)sim_clamp (A (3), -300, 300));
 	return 1;
     case MOP_SET_COMPONENT_ALPHA:
-	pixman_image_set_component_alpha (img, (pixman_bool_t)sim_mod (A (1), 2));
+	pixman_image_set_component_alpha (img, truthy (A (1)));
 	return 1;
     case MOP_SET_ACCESSORS:
 	if (!is_bits || PIXMAN_FORMAT_BPP (fmt) > 32) return 1;
@@ -692,7 +711,7 @@ static void
 install_new_image (machine_t *m, int slot, int kind, pixman_image_t *img, const sim_op_t *op)
 {
     mslot_t *s = &m->img[slot];
-    slot_release_storage (s);       /* storage of a long-gone previous tenant */
+    slot_retire_storage (m, s);     /* storage of a long-gone previous tenant */
     memset (s, 0, sizeof *s);
     s->used = 1;
     s->kind = kind;
@@ -769,6 +788,25 @@ step_image_op (machine_t *m, const sim_op_t *op, const int64_t *a, int n, mstep_
 	st->ret = img != NULL;
 	if (!img) return;
 	install_new_image (m, slot, op->kind, img, op);
+	st->created_slot = slot;
+	return;
+    }
+    case MOP_ALIAS:
+    {
+	/* slot := image of format A(2) over the very pixels of bits image A(1) (same bpp only) */
+	int other = (int)sim_mod (A (1), M_NIMG), fi = (int)sim_mod (A (2), sim_n_formats);
+	mslot_t *o = &m->img[other];
+	pixman_image_t *img;
+	if (s->used || !img_ok (m, other) || o->kind != MOP_BITS || other == slot || !o->lowest) return;
+	if (PIXMAN_FORMAT_BPP (sim_formats[fi]) != PIXMAN_FORMAT_BPP (o->fmt) || fmt_is_indexed (sim_formats[fi])) return;
+	st->executed = 1; st->has_status = 1;
+	img = pixman_image_create_bits_no_clear (sim_formats[fi], o->w, o->h, pixman_image_get_data (o->img), o->stride);
+	st->ret = img != NULL;
+	if (!img) return;
+	install_new_image (m, slot, MOP_BITS, img, op);
+	s->fmt = sim_formats[fi]; s->fmt_idx = fi; s->w = o->w; s->h = o->h; s->stride = o->stride;
+	s->lowest = o->lowest; s->storage = o->storage; s->tile = o->tile;
+	s->lib_owned = 1;               /* not ours to describe again: replicas take the geometry from the slot */
 	st->created_slot = slot;
 	return;
     }
@@ -927,6 +965,7 @@ shares_storage (machine_t *m, int a, int b)
     int aa, ba;
     if (a < 0 || b < 0) return 0;
     aa = m->img[a].has_alpha; ba = m->img[b].has_alpha;
+    if (m->img[a].lowest && m->img[a].lowest == m->img[b].lowest) return 1;     /* alias images */
     return a == b || aa == b || ba == a || (aa >= 0 && aa == ba);
 }
 
@@ -1238,6 +1277,28 @@ step_region_op (machine_t *m, const sim_op_t *op, const int64_t *a, int n, mstep
     {
 	int dst = (int)sim_mod (A (1), M_NREG), cnt = (int)sim_clamp (A (2), 0, 20);
 	st->region_slot = dst;
+	if (A (2) > 20)
+	{
+	    /* many boxes from a formula (the arguments would not fit): count = A(2) up to 400,
+	     * pattern A(3): 0 nested boxes (none can be appended to another), 1 a staircase,
+	     * 2 pseudo-random from A(4) */
+	    pixman_box32_t b32[400];
+	    pixman_box16_t b16[400];
+	    int big = (int)sim_clamp (A (2), 21, 400), pat = (int)sim_mod (A (3), 3);
+	    uint64_t x = (uint64_t)A (4) * 0x9e3779b97f4a7c15ull + 5;
+	    for (i = 0; i < big; i++)
+	    {
+		int x1, y1, x2, y2;
+		if (pat == 0) { x1 = i; y1 = i; x2 = 1000 - i; y2 = 1000 - i; }
+		else if (pat == 1) { x1 = 3 * i; y1 = 2 * i; x2 = x1 + 40; y2 = y1 + 7; }
+		else { uint64_t q = sim_splitmix (&x); x1 = (int)(q & 1023); y1 = (int)(q >> 10 & 1023); x2 = x1 + 1 + (int)(q >> 20 & 63); y2 = y1 + 1 + (int)(q >> 26 & 63); }
+		b32[i].x1 = x1; b32[i].y1 = y1; b32[i].x2 = x2; b32[i].y2 = y2;
+		b16[i].x1 = (int16_t)x1; b16[i].y1 = (int16_t)y1; b16[i].x2 = (int16_t)x2; b16[i].y2 = (int16_t)y2;
+	    }
+	    if (w16) { pixman_region_fini (&m->r16[dst]); st->ret = pixman_region_init_rects (&m->r16[dst], b16, big); }
+	    else { pixman_region32_fini (&m->r32[dst]); st->ret = pixman_region32_init_rects (&m->r32[dst], b32, big); }
+	    return;
+	}
 	if (w16)
 	{
 	    pixman_box16_t b[20];
@@ -1391,7 +1452,7 @@ machine_step (machine_t *m, const sim_op_t *op, int op_index, mstep_t *st)
 	fentry = (int)sim_clamp (op->a[2], 0, 3);
     }
     sim_alloc_enter (op_index, fmode, fk, fentry);
-    if (op->kind <= MOP_SET_DITHER_OFFSET) step_image_op (m, op, a, n, st);
+    if (op->kind <= MOP_SET_DITHER_OFFSET || op->kind == MOP_ALIAS) step_image_op (m, op, a, n, st);
     else if (op->kind <= MOP_COMPOSITE_TRIS || op->kind == MOP_SCRIBBLE) step_draw_op (m, op, a, n, st);
     else if (op->kind <= MOP_GLYPHS) step_glyph_op (m, op, a, n, st);
     else if (op->kind <= MOP_R_FINI) step_region_op (m, op, a, n, st);
@@ -1564,7 +1625,14 @@ replica_one (machine_t *m, int slot, int share, arena_buf_t **out_buf, int with_
     {
 	bits_geom_t g;
 	decode_bits (a, n, &g);
-	if (s->lib_owned)
+	if (cop->kind == MOP_ALIAS)
+	{
+	    /* an alias has no geometry of its own in its creation op */
+	    memset (&g, 0, sizeof g);
+	    g.fmt = s->fmt; g.fmt_idx = s->fmt_idx; g.w = s->w; g.h = s->h;
+	    g.stride = s->stride < 0 ? -s->stride : s->stride; g.neg = s->stride < 0;
+	}
+	else if (s->lib_owned)
 	{
 	    /* describe pixman's own buffer truthfully */
 	    g.stride = s->stride; g.neg = 0; g.w = s->w; g.h = s->h;
